@@ -343,7 +343,7 @@ GRAPHS_Q = [(3, [(0, 1), (1, 2)], False), (3, [(0, 1), (1, 2), (0, 2)], False),
 def specs(tier):
     out = []
     thorough = tier != "quick"
-    K = 4 if thorough else 3
+    K = 5 if thorough else 4
     # catalogue on all small undirected graphs and all digraphs on <=3 nodes (quick: a selection)
     und = [(n, es, False) for n, es in gr.small_graphs(3) if es]
     dig = [(n, es, True) for n in (2, 3) for es in (gr.labelled_digraphs(n) if thorough else gr.digraph_shapes(n)) if es]
